@@ -16,6 +16,17 @@ focus = {
  'handle': "element handles, removal handles (pop/remove/swap_remove temp values), iterators and typed/byte views (src/element.rs, src/iter.rs, src/ops/temp.rs, src/ops/remove.rs, src/ops/swap_remove.rs, src/ops/pop.rs, src/any_vec_typed.rs)",
  'stack': "stack / fixed-capacity backends, the Mem/MemBuilder interface usage, raw parts, and type checks (src/mem/stack.rs, src/mem/stack_n.rs, src/mem/empty.rs, src/mem/mod.rs, from_raw_parts/into_raw_parts, downcast/type-id checks)",
 }
+if rnd != 'a':
+    focus = {
+     'typed': "the typed view AnyVecTyped / AnyVecRef / AnyVecMut and the downcast paths of the vector (src/any_vec_typed.rs, downcast_* in src/any_vec.rs): typed push/insert/pop/remove/swap_remove/clear/drain/splice/iterators/slices/reserve/shrink",
+     'values': "the any_value module: AnyValueWrapper, AnyValueRaw, AnyValueSizelessRaw / TypelessRaw, LazyClone, the AnyValue* trait default methods (downcast, downcast_ref/mut, move_into, swap, as_bytes) in src/any_value/*.rs",
+     'resize': "how the vector talks to its storage: use of Mem::expand / expand_exact / resize in src/any_vec_raw.rs and src/mem/*.rs, the amortisation policy, realloc vs alloc+copy+dealloc, what happens around capacity 0, shrink policies where the properties leave freedom (note: C10 and C18 pin several things down exactly - read them twice)",
+     'checks': "argument and state validation: the order of checks, which of several legal panics fires first and with what message, additional defensive assertions that can never fire on valid input, early returns for degenerate inputs (empty range, zero-sized types, zero counts) - anywhere under src/",
+     'splice2': "an alternative but equivalent algorithm inside src/ops/splice.rs and src/ops/drain.rs (e.g. different order of moving the tail and writing the replacement where user code cannot observe it, moving elements one by one vs in bulk, different bookkeeping fields), keeping the documented forget/panic behaviour within what C06/C07 allow",
+     'clone2': "clone / clone_empty / clone_empty_in / LazyClone consumption and the CloneFn / DropFn plumbing (src/clone_type.rs, src/any_vec_raw.rs, src/any_vec.rs, src/any_value/lazy_clone.rs): e.g. chunked cloning, cloning back to front?? (check C08 first), capacity choice of the clone, order of building storage vs reading the source",
+    }
+    done = json.load(open('/verif/seeded/benign/META.json'))
+    tmpl = tmpl.replace("Your task: produce THREE", "The following harmless changes already exist; do NOT repeat them or produce a trivial variation of one of them:\n" + "\n".join("- " + v['summary'].replace('\n', ' ')[:300] for k, v in sorted(done.items()) if k.startswith('a-')) + "\n\nYour task: produce THREE")
 for k, f in focus.items():
     wt = '/tmp/mut/B%s-%s' % (rnd, k)
     subprocess.run(['git', '-C', '/repo', 'worktree', 'add', '-q', '--detach', wt, 'HEAD'], check=True)
